@@ -64,7 +64,7 @@ def mc_scopes(thorough):
             ("match2_wide", "MatchSpec", dict(MaxMatchers=2, PatAlpha=[A, DOT, US, NINE], MaxPat=2)),
             ("summ_deep", "SummSpec", dict(MaxAdds=6, MaxDur=3, MaxDt=4)),
             ("summ_back_deep", "SummSpec", dict(MaxAdds=5, Back=3)),
-            ("rec_deep", "RecSpec", dict(MaxObs=3, MaxNow=3)),
+            ("rec_deep", "RecSpec", dict(MaxObs=3, MaxNow=2)),
         ]
     return s
 
@@ -137,10 +137,14 @@ def run(chk):
         "structural part (young samples only, totals) is asserted for them",
         "recorder model: one label-free series per family, distinct registered names have distinct sanitised names; single-threaded calls",
     ]
-    # 1. exhaustive model checking, one run per part and scope
-    for name, spec, kw in mc_scopes(thorough):
-        cfg = gen_cfg(name, spec, **kw)
-        r = vlib.tlc_mc(SPEC, "MCPromHist", cfg, workers=8, timeout=6000 if thorough else 900, tag=name)
+    # 1. exhaustive model checking, one run per part and scope (two runs at a time, 4 workers each)
+    scopes = [(name, spec, gen_cfg(name, spec, **kw)) for name, spec, kw in mc_scopes(thorough)]
+    from concurrent.futures import ThreadPoolExecutor
+    with ThreadPoolExecutor(max_workers=2) as ex:
+        futs = [(name, ex.submit(vlib.tlc_mc, SPEC, "MCPromHist", cfg, 4, 6000 if thorough else 900, None, True, None, name))
+                for name, spec, cfg in scopes]
+        results = [(name, f.result()) for name, f in futs]
+    for name, r in results:
         if not chk.expect_mc_ok(r, "PromHist/" + name):
             return
         chk.log("TLC %s: %d distinct states (%d generated), depth %d, %.0fs" % (name, r["distinct"], r["generated"], r["depth"], r["wall"]))
